@@ -1,13 +1,15 @@
 \* thorough: read-back clauses two edits deep, third core with edge assemblies
 CONSTANTS NLeaf = 6  NBlk = 4  NAsm = 4  MaxLevel = 3  LMax = 20000  VMax = 100
 CONSTANTS Parent <- TEdgeParent  Area <- TEdgeArea  Height <- TEdgeHeight  Sym <- TEdgeSym  W <- Wt  N0 <- TEdgeN0  H0 <- TEdgeH0
-CONSTANTS Targets <- TEdgeTargets  Vals <- ValsT  Facs <- FacsT  Masses <- MassesT  Maps <- MapsT  FracMaps <- FracMapsT
+CONSTANTS Targets <- TEdgeTargets  Vals <- ValsT  Facs <- FacsT  Masses <- MassesT  Maps <- MapsT  FracMaps <- FracMapsT  AddMaps <- AddMapsT  SetMaps <- SetMapsT
+CONSTANTS HDom <- HDom123  HTargets <- TEdgeH8  HVals <- HDom123
 CONSTANTS LeafVolCut <- LeafVolCutEnv  ScaleRaises <- ScaleRaisesEnv
 INIT InitB
 NEXT NextB
 CONSTRAINT Bound
 VIEW View
 INVARIANT TypeOK
+INVARIANT VolumeAdditive
 PROPERTY ReadBack
 PROPERTY Locality
 CHECK_DEADLOCK FALSE
